@@ -4281,17 +4281,23 @@ fn check_entity_reference(
         return Err(error::Error::InvalidData(format!("&{};", name)));
     }
 
+    // No < in Attribute Values: applies to declared entities (`&lt;` itself is predefined).
+    let no_lt = in_attribute && entity.parent_id().is_some();
+
     path.push(name.to_string());
     for value in entity.values().unwrap_or_default() {
-        match value {
-            XmlEntityValue::Character(v, 10) => {
-                char_from_char10(v)?;
+        let ch = match value {
+            XmlEntityValue::Character(v, 10) => Some(char_from_char10(v)?),
+            XmlEntityValue::Character(v, _) => Some(char_from_char16(v)?),
+            XmlEntityValue::Entity(v) => {
+                check_entity_reference(v, context, in_attribute, path)?;
+                None
             }
-            XmlEntityValue::Character(v, _) => {
-                char_from_char16(v)?;
-            }
-            XmlEntityValue::Entity(v) => check_entity_reference(v, context, in_attribute, path)?,
-            _ => {}
+            XmlEntityValue::Text(v) if no_lt && v.contains('<') => Some('<'),
+            _ => None,
+        };
+        if no_lt && ch == Some('<') {
+            return Err(error::Error::InvalidData(format!("&{};", name)));
         }
     }
     path.pop();
